@@ -37,7 +37,7 @@ import (
 //   io       this Read/Write call on a lookupd connection fails (stall / timeout / reset)
 //   reply    the lookupd answers this command badly and hangs up:
 //            kind 1 hangs up without a reply (accept-then-close), 2 junk body, 3 "E_INVALID",
-//            4 a frame with an arbitrary (non-negative) int32 size prefix and 0..2 junk bytes
+//            4 a frame with an invalid length prefix (short body / oversize / empty)
 //   down     the lookupd refuses connections during this step
 //   restart  the lookupd restarts with empty state before this step
 // A native replay realises an io fault by handing the real socket an already expired deadline
@@ -66,14 +66,15 @@ type verifLSession struct {
 }
 
 type verifLookupd struct {
-	w        *verifWorld
-	i        int
-	addr     string
-	down     bool
-	sessions []*verifLSession
-	cmdSeq   int
-	identOK  []byte       // honest IDENTIFY answer
-	l        net.Listener // native only
+	w         *verifWorld
+	i         int
+	addr      string
+	down      bool
+	sessions  []*verifLSession
+	cmdSeq    int
+	identOK   []byte       // honest IDENTIFY answer
+	pingReply []byte       // if set: raw bytes sent in answer to a PING, then the lookupd hangs up
+	l         net.Listener // native only
 }
 
 type verifWorld struct {
@@ -415,12 +416,17 @@ func (s *verifLSession) respond(cmd verifLCmd) {
 		case 2:
 			s.send(verifFrame([]byte("E_INVALID")))
 		default:
-			// negative size prefixes are decided for every value by VerifC16_ReadResponseBounded
-			// and end-to-end by VerifC16_CommandSizePrefix; here: any non-negative int32
-			size := verifrt.Int32("reply.size")
-			verifrt.Assume(size >= 0)
-			junk := []byte("xyz")[:verifrt.Choice("reply.junk", 3)]
-			s.send(append(verifBE32(uint32(size)), junk...))
+			// a frame with an invalid length prefix. The per-value behaviour of the prefix (every
+			// int32, negative ones included) is decided by VerifC16_ReadResponseBounded and end to
+			// end by VerifC16_CommandSizePrefix; here one representative per class is enough:
+			switch verifrt.Choice("reply.prefix", 3) {
+			case 0: // announces more than follows before the lookupd hangs up
+				s.send(append(verifBE32(3), 'x'))
+			case 1: // announces more than max-body-size
+				s.send(verifBE32(0x7fffffff))
+			default: // an empty frame (valid framing, no content)
+				s.send(verifBE32(0))
+			}
 		}
 		s.hangUp()
 		return
@@ -430,6 +436,11 @@ func (s *verifLSession) respond(cmd verifLCmd) {
 		s.ident = true
 		s.send(verifFrame(ld.identOK))
 	case "PING":
+		if ld.pingReply != nil {
+			s.send(ld.pingReply)
+			s.hangUp()
+			return
+		}
 		s.send(verifFrame([]byte("OK")))
 	case "REGISTER":
 		if !s.ident || cmd.topic == "" {
